@@ -5,7 +5,7 @@
  *
  *   R name
  *   I dst fmt w h stride gb ga seed        destination image (row 0 starts gb bytes into the allocation)
- *   I src|mask solid r g b a | bits fmt w h seed repeat | none
+ *   I src|mask solid r g b a | bits fmt w h seed repeat | linear repeat alpha1 alpha2 | none
  *   A dst fmt w h ox oy seed               destination alpha map (own logged allocation)
  *   A src|mask fmt w h ox oy               alpha map of a source (no clip)
  *   C dst|src|mask n (x1 y1 x2 y2)*        pixman_image_set_clip_region32 (n = -1: NULL)
@@ -175,6 +175,22 @@ main (int argc, char **argv)
 		    c.red = (uint16_t)v[0]; c.green = (uint16_t)v[1]; c.blue = (uint16_t)v[2]; c.alpha = (uint16_t)v[3];
 		    simg[r] = pixman_image_create_solid_fill (&c);
 		    cst[r].present = 1;
+		}
+		else if (!strcmp (kind, "linear"))
+		{
+		    /* linear gradient (0,0)->(8,4), two stops with the given alphas; v: repeat a1 a2 */
+		    pixman_point_fixed_t p1 = { 0, 0 }, p2 = { 8 << 16, 4 << 16 };
+		    pixman_gradient_stop_t st[2];
+		    fc_read_ints (in, v, 3);
+		    st[0].x = 0;
+		    st[0].color.red = 0xffff; st[0].color.green = 0x4000; st[0].color.blue = 0x0100;
+		    st[0].color.alpha = (uint16_t)v[1];
+		    st[1].x = 1 << 16;
+		    st[1].color.red = 0x2000; st[1].color.green = 0xffff; st[1].color.blue = 0x8000;
+		    st[1].color.alpha = (uint16_t)v[2];
+		    simg[r] = pixman_image_create_linear_gradient (&p1, &p2, st, 2);
+		    pixman_image_set_repeat (simg[r], (pixman_repeat_t)v[0]);
+		    cst[r].present = 2;
 		}
 		else if (!strcmp (kind, "bits"))
 		{
